@@ -349,37 +349,38 @@ def optSign : Bytes → Bytes
   | b :: r => if b = 0x2B || b = 0x2D then r else b :: r
   | [] => []
 
+/-- the mantissa `digit1 ('.' digit1?)? | '.' digit1`: what follows it, `none` if absent -/
+def mantissaEnd (i : Bytes) : Option Bytes :=
+  match i with
+  | b :: r =>
+    if isDigit b then
+      match i.dropWhile isDigit with
+      | 0x2E :: r2 => some (r2.dropWhile isDigit)     -- '.' digit1?  (opt(digit1))
+      | r1 => some r1
+    else if b = 0x2E then
+      match r with
+      | c :: _ => if isDigit c then some (r.dropWhile isDigit) else none
+      | [] => none
+    else none
+  | [] => none
+
+/-- the optional exponent `[eE] [+-]? cut(digit1)`: `fail` for a marker not followed by digits -/
+def exponentEnd (i : Bytes) : PRes Unit :=
+  match i with
+  | b :: r =>
+    if b = 0x65 || b = 0x45 then
+      match optSign r with
+      | c :: r1 => if isDigit c then .ok ((c :: r1).dropWhile isDigit) () else .fail
+      | [] => .fail
+    else .ok i ()
+  | [] => .ok [] ()
+
 /-- `recognize_float`: `[+-]? (digit1 ('.' digit1?)? | '.' digit1) ([eE] [+-]? cut(digit1))?`;
     returns the input after the lexeme, `fail` for an exponent marker not followed by digits -/
 def floatEnd (i : Bytes) : PRes Unit :=
-  let i1 := optSign i
-  -- mantissa
-  let mant : Option Bytes :=
-    match i1 with
-    | b :: r =>
-      if isDigit b then
-        let r1 := i1.dropWhile isDigit
-        match r1 with
-        | 0x2E :: r2 => some (r2.dropWhile isDigit)     -- '.' digit1?  (opt(digit1))
-        | _ => some r1
-      else if b = 0x2E then
-        match r with
-        | c :: _ => if isDigit c then some (r.dropWhile isDigit) else none
-        | [] => none
-      else none
-    | [] => none
-  match mant with
+  match mantissaEnd (optSign i) with
   | none => .err
-  | some i2 =>
-    match i2 with
-    | b :: r =>
-      if b = 0x65 || b = 0x45 then
-        let r1 := optSign r
-        match r1 with
-        | c :: _ => if isDigit c then .ok (r1.dropWhile isDigit) () else .fail
-        | [] => .fail
-      else .ok i2 ()
-    | [] => .ok [] ()
+  | some i2 => exponentEnd i2
 
 @[inline] def lower (b : UInt8) : UInt8 := if 0x41 ≤ b && b ≤ 0x5A then b + 32 else b
 
